@@ -4,8 +4,8 @@
    pymodbus/client/sync.py `BaseModbusClient.execute`, socket framing, read-holding-registers requests).
 
   * A thread is a list of requests; a transaction is the operation sequence
-      connect(outside the lock, `BaseModbusClient.execute`) ; acquire ; tid++ ; connect ; send₁ ; send₂ ;
-      wait^lat ; recv₁ ; recv₂ ; process ; release
+      acquire(client lock) ; connect ; acquire(manager lock) ; tid++ ; connect ; send₁ ; send₂ ;
+      wait^lat ; recv₁ ; recv₂ ; process ; release(manager lock) ; release(client lock)
     (the frame reaches the wire in two writes, MBAP header then PDU, so that an interleaving of two frames is
     observable; `wait` = a poll of the transport that finds the reply not yet there).
   * `connect` is `ModbusTcpClient.connect`: check-then-act — `if self.socket: return True`, otherwise
@@ -35,18 +35,32 @@ structure Req where
   lat : Nat
   deriving Repr, DecidableEq, Inhabited
 
-/-- which lock(s) `execute` takes, and around what -/
+/-- the lock discipline of `BaseModbusClient.execute` + `ModbusTransactionManager.execute` as a whole.
+    Two lock sites exist in the code: the CLIENT lock (`with self._connect_lock:` around the connect check/open AND the
+    call of the manager) and the MANAGER lock (`with self._transaction_lock:` = body of the manager's `execute`).
+    `whole` is the shipped (repaired) discipline: both, nested.  Every other constructor is a mutant:
+      connectOutside  – no client lock, manager lock around the transaction (the code before the repair)
+      connectLocked   – client lock around the connect only (released before the manager is entered), manager lock whole
+      perKey key      – no client lock, one manager lock per key (e.g. per unit id)
+      outerPerKey key – client lock whole, one manager lock per key
+      none            – no lock at all
+      sendOnly        – no client lock, one manager lock held around the send only -/
 inductive LockScope where
-  | whole                       -- one lock around the whole transaction (`with self._transaction_lock:` = body of execute)
-  | perKey (key : Req → Nat)    -- one lock per key (e.g. per unit id), around the whole transaction
-  | none                        -- no lock
-  | sendOnly                    -- one lock, but only around the send
+  | whole
+  | connectOutside
+  | connectLocked
+  | perKey (key : Req → Nat)
+  | outerPerKey (key : Req → Nat)
+  | none
+  | sendOnly
 
 inductive Op where
-  | preconnect | open | acquire | tid | connect | send1 | send2 | wait | recv1 | recv2 | process | release
+  | cacquire | preconnect | open | acquire | tid | connect | send1 | send2 | wait | recv1 | recv2 | process | release
+  | crelease
   deriving DecidableEq, Repr, Inhabited
 
 def Op.name : Op → String
+  | .cacquire => "acquire" | .crelease => "release"
   | .preconnect => "connect" | .open => "open" | .acquire => "acquire" | .tid => "tid" | .connect => "connect"
   | .send1 => "send1" | .send2 => "send2" | .wait => "wait" | .recv1 => "recv" | .recv2 => "recv"
   | .process => "process" | .release => "release"
@@ -57,21 +71,35 @@ def Op.isYield : Op → Bool
   | .tid | .process => false
   | _ => true
 
-/-- the operations of one transaction AFTER the unlocked `connect` of `BaseModbusClient.execute` -/
+/-- the part of a transaction between the manager's lock operations -/
+def coreOps (r : Req) : List Op :=
+  [.tid, .connect, .send1, .send2] ++ (List.replicate r.lat .wait ++ [.recv1, .recv2, .process])
+
+/-- the operations of one call of `BaseModbusClient.execute` -/
 def txnOps (scope : LockScope) (r : Req) : List Op :=
   match scope with
-  | .sendOnly => [.tid, .connect, .acquire, .send1, .send2, .release] ++
-      (List.replicate r.lat .wait ++ [.recv1, .recv2, .process])
-  | .none => [.tid, .connect, .send1, .send2] ++ (List.replicate r.lat .wait ++ [.recv1, .recv2, .process])
-  | _ => [.acquire, .tid, .connect, .send1, .send2] ++
+  | .whole | .outerPerKey _ =>
+      [.cacquire, .preconnect, .acquire, .tid, .connect, .send1, .send2] ++
+      (List.replicate r.lat .wait ++ [.recv1, .recv2, .process, .release, .crelease])
+  | .connectLocked =>
+      [.cacquire, .preconnect, .crelease, .acquire, .tid, .connect, .send1, .send2] ++
       (List.replicate r.lat .wait ++ [.recv1, .recv2, .process, .release])
+  | .connectOutside | .perKey _ =>
+      [.preconnect, .acquire, .tid, .connect, .send1, .send2] ++
+      (List.replicate r.lat .wait ++ [.recv1, .recv2, .process, .release])
+  | .none => .preconnect :: coreOps r
+  | .sendOnly => [.preconnect, .tid, .connect, .acquire, .send1, .send2, .release] ++
+      (List.replicate r.lat .wait ++ [.recv1, .recv2, .process])
 
+/-- lock 0 is the client lock; the manager lock(s) are numbered from 1 -/
+def clientKey : Nat := 0
+
+/-- which manager lock a transaction takes -/
 def lockKey (scope : LockScope) (r : Req) : Option Nat :=
   match scope with
-  | .whole => some 0
-  | .perKey key => some (key r)
+  | .whole | .connectOutside | .connectLocked | .sendOnly => some 1
+  | .perKey key | .outerPerKey key => some (1 + key r)
   | .none => Option.none
-  | .sendOnly => some 0
 
 /-- decoded reply -/
 inductive Msg where
@@ -236,14 +264,25 @@ def lockRelease (locks : Nat → Option (Nat × Nat)) (k t : Nat) : Nat → Opti
 
 /-- an exception escapes `execute` (the `with` releases the lock on the way out): the caller gets no response -/
 def raiseOut (s : State) (t : Nat) (th : Thread) (ops : List Op) (op : Op) (e : PyErr) : State :=
-  { s with threads := upd s.threads t { th with ops := ops.filter (· == .release),
+  { s with threads := upd s.threads t { th with ops := ops.filter (fun o => o == .release || o == .crelease),
                                                  results := th.results ++ [(th.cur, th.tidv, .raised e)] },
            trace := (t, op) :: s.trace }
 
 /-- thread `t` (local state `th`, request `th.cur`) performs operation `op`; `ops` is what follows it -/
 def stepOp (scope : LockScope) (s : State) (t : Nat) (th : Thread) (ops : List Op) : Op → State
-  | .preconnect =>
-    { s with threads := upd s.threads t { th with ops := ops }, trace := (t, .preconnect) :: s.trace }
+  | .cacquire =>    -- `with self._connect_lock:` in `BaseModbusClient.execute`
+    match lockAcquire s.locks clientKey t with
+    | Option.none => s        -- parked: somebody else holds the client lock
+    | some l => { s with locks := l, threads := upd s.threads t { th with ops := ops },
+                         trace := (t, .cacquire) :: s.trace }
+  | .crelease =>
+    { s with locks := lockRelease s.locks clientKey t, threads := upd s.threads t { th with ops := ops },
+             trace := (t, .crelease) :: s.trace }
+  | .preconnect =>  -- `BaseModbusClient.execute`: `self.connect()`: the check; no socket → go on to open one
+    match s.sock with
+    | some _ => { s with threads := upd s.threads t { th with ops := ops }, trace := (t, .preconnect) :: s.trace }
+    | Option.none =>
+      { s with threads := upd s.threads t { th with ops := .open :: ops }, trace := (t, .preconnect) :: s.trace }
   | .open =>      -- `self.socket = socket.create_connection(…)` completes: a fresh connection replaces `client.socket`
     { s with sock := some s.nextConn, nextConn := s.nextConn + 1,
              threads := upd s.threads t { th with ops := ops, sconn := s.nextConn }, trace := (t, .open) :: s.trace }
@@ -328,13 +367,9 @@ def stepOp (scope : LockScope) (s : State) (t : Nat) (th : Thread) (ops : List O
       { s with locks := lockRelease s.locks k t, threads := upd s.threads t { th with ops := ops },
                trace := (t, .release) :: s.trace }
 
-/-- `BaseModbusClient.execute`: `self.connect()` before the manager is entered (outside any lock): the check; if
-    there is no socket the thread goes on to open one.  Loads the next transaction. -/
+/-- the caller turns to its next request (plain code, nothing shared is touched) -/
 def stepBegin (scope : LockScope) (s : State) (t : Nat) (th : Thread) (r : Req) (rest : List Req) : State :=
-  { s with threads := upd s.threads t
-             { th with todo := rest, cur := r,
-                       ops := if s.sock.isSome then txnOps scope r else .open :: txnOps scope r },
-           trace := (t, .preconnect) :: s.trace }
+  { s with threads := upd s.threads t { th with todo := rest, cur := r, ops := txnOps scope r } }
 
 /-- thread `t` performs its next operation (or stays put if parked / finished) -/
 def step (scope : LockScope) (s : State) (t : Nat) : State :=
@@ -376,11 +411,16 @@ def runnable (scope : LockScope) (s : State) (t : Nat) : Bool :=
     | some k => match s.locks k with
       | Option.none => true
       | some (o, _) => o == t
+  | .cacquire :: _ =>
+    match s.locks clientKey with
+    | Option.none => true
+    | some (o, _) => o == t
   | _ => true
 
 /-- a `connect` may turn into an `open` -/
 def Op.weight : Op → Nat
   | .connect => 2
+  | .preconnect => 2
   | _ => 1
 
 def opsWeight (ops : List Op) : Nat := (ops.map Op.weight).sum
@@ -394,7 +434,8 @@ def totalWork (scope : LockScope) (s : State) : Nat → Nat
   | 0 => 0
   | n + 1 => totalWork scope s n + (s.threads n).work scope
 
-/-- harness granularity: perform the next operation of `t`, then the plain code up to its next yield point -/
+/-- harness granularity: perform the next operation of `t`, then the plain code up to its next yield point (loading
+    the next request included) -/
 def macroTail (scope : LockScope) : Nat → State → Nat → State × List Nat
   | 0, s, _ => (s, [])
   | fuel + 1, s, t =>
@@ -404,10 +445,14 @@ def macroTail (scope : LockScope) : Nat → State → Nat → State × List Nat
       else
         let r := macroTail scope fuel (step scope s t) t
         (r.1, t :: r.2)
-    | [] => (s, [])
+    | [] =>
+      if (s.threads t).todo.isEmpty then (s, [])
+      else
+        let r := macroTail scope fuel (step scope s t) t
+        (r.1, t :: r.2)
 
 def macroStep (scope : LockScope) (s : State) (t : Nat) : State × List Nat :=
-  let r := macroTail scope 4 (step scope s t) t
+  let r := macroTail scope 6 (step scope s t) t
   (r.1, t :: r.2)
 
 end Sched
